@@ -1,4 +1,4 @@
-CONSTANTS NTests = 2 Deviations = {"CatchWarningsOnlyIfSet"} PreChoices = {TRUE, FALSE}
+CONSTANTS NTests = 2 Deviations = {"CatchWarningsOnlyIfSet"} PreChoices = {"none", "both", "sys"}
 SPECIFICATION Spec
 INVARIANT Restored
 INVARIANT HooksRestored
